@@ -52,7 +52,7 @@ def split_known(prop, known, spec, res):
         hit = None
         for f in known:
             pred = prop.SIGNATURES.get(f.signature)
-            if pred is not None and pred(spec, v):
+            if pred is not None and pred(spec, v, res):
                 hit = f.fid
                 break
         if hit:
